@@ -26,12 +26,11 @@ namespace ratio
         {
         case False:
             init(); // we create a new graph var..
-            if (!get_flaws().empty())
-                if (std::any_of(get_flaws().cbegin(), get_flaws().cend(), [](flaw *f)
-                                { return is_positive_infinite(f->get_estimated_cost()); })) // we build/extend the graph..
-                    build();
-                else // we add a layer to the current graph..
-                    add_layer();
+            if (std::any_of(get_flaws().cbegin(), get_flaws().cend(), [](flaw *f)
+                            { return is_positive_infinite(f->get_estimated_cost()); })) // we build/extend the graph..
+                build();
+            else // we add a layer to the current graph (if there is nothing left to expand, the problem is unsolvable)..
+                add_layer();
             [[fallthrough]];
         case Undefined:
 #ifdef GRAPH_PRUNING
